@@ -416,7 +416,7 @@ def _alarm(signum, frame):
     raise CallTimeout(f'call did not return within {CALL_TIMEOUT} s')
 
 
-def run(tn, E, args, pos=None, kw=None):
+def _run_once(tn, E, args, pos=None, kw=None, timeout=None):
     """('ok', result) or ('exc', exception type name, message).  Every call runs under a wall-clock limit (a changed
     stopping rule must not hang the check): a call that does not return counts as raising CallTimeout."""
     import signal
@@ -427,7 +427,7 @@ def run(tn, E, args, pos=None, kw=None):
         # the driver (./check) uses the same timer for its overall limit: remember what is left of it and put it back
         t_in = time.time()
         old = signal.signal(signal.SIGALRM, _alarm)
-        left, _ = signal.setitimer(signal.ITIMER_REAL, CALL_TIMEOUT)
+        left, _ = signal.setitimer(signal.ITIMER_REAL, timeout or CALL_TIMEOUT)
     try:
         with contextlib.redirect_stdout(buf), warnings.catch_warnings(), np.errstate(all='ignore'):
             warnings.simplefilter('ignore')
@@ -443,6 +443,15 @@ def run(tn, E, args, pos=None, kw=None):
             signal.signal(signal.SIGALRM, old)
             if left > 0:
                 signal.setitimer(signal.ITIMER_REAL, max(left - (time.time() - t_in), 0.01))
+
+
+def run(tn, E, args, pos=None, kw=None):
+    """one call under the wall-clock limit; a call that hits the limit is repeated once with six times the limit, so that a
+    loaded machine cannot turn a slow call into a difference (only a call that does not return at all counts as CallTimeout)"""
+    o = _run_once(tn, E, args, pos, kw)
+    if o[0] == 'exc' and o[1] == 'CallTimeout':
+        o = _run_once(tn, E, args, pos, kw, timeout=6 * CALL_TIMEOUT)
+    return o
 
 
 def outcome_canon(o):
